@@ -6,6 +6,41 @@ import json, os, subprocess
 V = os.path.dirname(os.path.dirname(os.path.abspath(__file__)))
 
 CHECKS = {
+    "C01": dict(engine="E-lib/E-proc",
+                technique="runtime monitor: reference-model comparison (independent evaluator of the documented query grammar) over emitted sets of the real filter, library mode and process level",
+                text="Every generated (list, query, options) triple is run through the real fzf (fzf.Run in library mode; the built binary over stdin for a share) and the emitted multiset is compared with the lines accepted by a reference evaluator written from the documentation. Interactive match lists are compared with the same reference through the C08 driver.",
+                note="Trusted: the reference evaluator (refq, ~250 lines, shares only the accent table with fzf) and the well-formedness rules of generated queries.",
+                ref="4/C01"),
+    "C04": dict(engine="E-lib/E-proc",
+                technique="runtime monitor: permutation check + metamorphic sub-list/pair order consistency + semantic tiebreak monitor on unambiguous workloads",
+                text="Filter output is checked to be a permutation of the reference matches; relative order of adjacent pairs and random sub-lists must equal their order when filtered alone (global sort == partitioned sort + merge) over 0..60000 lines, --tail, 1/2/16 CPUs; on single-occurrence exact-term workloads the order must follow score then the documented tiebreak criteria.",
+                note="'end' and 'pathname' are only decided where the documentation is unambiguous. Merger random access is exercised by the C13 harness.",
+                ref="4/C04"),
+    "C06": dict(engine="E-pkg/E-proc",
+                technique="runtime monitor: reference split over recorded pusher deliveries (re-read after the last read), process-level stdin/stdout comparison with controlled write schedules",
+                text="Reader.feed is driven with OS-like read results under exhaustive and generated cut plans around buffer/slab/delimiter boundaries; delivered records are compared at push time and again after all reads; the binary's stdout for -f '' with --read0/--tail/--header-lines is compared with the reference records under five write schedules.",
+                note="Item ordinals are observed in the interactive checks. Only read results an *os.File can produce are generated.",
+                ref="4/C06"),
+    "C10": dict(engine="E-pkg",
+                technique="runtime monitor: partition-law and reference-selector oracles over Tokenize/Transform/with-nth renderer; reference evaluator per selected field for --nth",
+                text="Partition law and recorded offsets for three delimiter kinds, every range expression with bounds -6..6 against a reference selector, --nth matching against the reference evaluator applied per field with offsets/positions checked against the full line.",
+                note="Queries for the --nth oracle avoid delimiter characters; the last selected field is searched without its trailing delimiter (documented).",
+                ref="4/C10"),
+    "C11": dict(engine="E-pkg",
+                technique="runtime monitor: regex oracle built from the documented expression, span well-formedness invariant, independent SGR/OSC-8 interpreter compared per character",
+                text="Arbitrary byte strings: stripped text == ReplaceAll(documented expression); spans inside the text, ordered, disjoint; grammar streams: per-character colour/attributes/hyperlink and carried-over state equal an independent SGR interpreter.",
+                note="F19 (empty SGR parameter skipped) and F20 (OSC-8 close with bare ESC) are listed known findings with witness classifiers.",
+                ref="4/C11"),
+    "C18": dict(engine="E-pkg",
+                technique="runtime monitor: reference model of the history (entries, cursor, per-entry overlay) compared step by step with the real History and the file bytes",
+                text="Random multi-session histories over the real History API in the order the terminal uses it; returned strings after every navigation step and file bytes after every session are compared with the model.",
+                note="API level; accept/abort exit paths are driven by the interactive engine.",
+                ref="4/C18"),
+    "C19": dict(engine="E-pkg",
+                technique="runtime monitor: reference walk over os.ReadDir compared with the paths pushed by the real walker on generated trees; unprivileged worker for unreadable directories",
+                text="Generated trees x all 12 option combinations x skip lists x roots; multiset of pushed paths equals the reference walk; unreadable directories listed once.",
+                note="F9 (hidden files listed) and F10 (symlinked directory classified as file) are listed known findings with witness classifiers.",
+                ref="4/C19"),
     "C02": dict(engine="E-algo",
                 technique="runtime monitor: witness/completeness oracle over exported matcher calls (exhaustive short strings + random + long inputs), crash-isolated worker processes",
                 text="Every call of the seven exported matchers in the workload is observed and decided by an independent witness checker (positions, range, anchor, folding) and a brute-force completeness check; exhaustive for short strings over a class-covering alphabet, random and long (70k runes / 1.2k pattern) otherwise. Says nothing about inputs not generated.",
@@ -60,6 +95,8 @@ def main():
         },
         "engines": [
             {"name": "E-algo", "path": "harness/algochk", "serves_properties": ["C02", "C03", "C05"], "kind_free_text": "in-process calls of exported algo.* matchers from worker processes, reference oracles"},
+            {"name": "E-lib/E-proc", "path": "harness/filterchk, harness/fzfrun", "serves_properties": ["C01", "C04", "C05"], "kind_free_text": "real filter in library mode (fzf.ParseOptions + fzf.Run with channels) and as a child process built from the working tree"},
+            {"name": "E-pkg", "path": "harness/{fieldchk,ansichk,readchk,histchk,walkchk}", "serves_properties": ["C06", "C10", "C11", "C18", "C19"], "kind_free_text": "unexported units driven at their boundary through the verif export shims"},
         ],
         "checks": checks,
         "not_applicable": na,
